@@ -398,6 +398,8 @@ def run(prog, rep):
     from ..engines import e5_writers as e5
     rep.rule("E5.var", "VariableMap::add refuses every second definition (whatever the mutability flags); VariableMap::set writes mutable bindings only")
     e5.variable_map_shape(prog, rep, "E5.var")
+    e5.mutability_flags(prog, rep)
+    e5.file_tables_grow_only(prog, rep)
     memo_rule(prog, rep)
     forcing_window(prog, rep)
     from . import C02
